@@ -88,6 +88,16 @@ CHECKS = {
               'Exhaustive over all shapes with <=4 levels and <=6 leaves in '
               'the thorough tier, sampled beyond.',
               'DESIGN.md section 2 C10', _BASE_NOTE),
+    'C13': _e('exploration',
+              'reference-model monitor: real on-disk transposition '
+              'routines (serial, sliced, value-less, parallel with 1-4 '
+              'workers) and file-level operations run on matrices whose '
+              'stored values are unique ids; outputs compared with scipy\'s '
+              'canonical transpose / the same operation in memory; '
+              'bounded-exhaustive 0/1 patterns up to 4x4',
+              'Thorough tier enumerates all 65 536 4x4 patterns and all '
+              'smaller shapes; every indices_slice sub-range of each.',
+              'DESIGN.md section 2 C13', _BASE_NOTE),
     'C15': _e('exploration',
               'cross-file consistency monitor over the JSON, CSV (csv '
               'module) and HDF5 (hdf5_to_blob) outputs of generated runs, '
